@@ -515,6 +515,39 @@ def run_histories(ctx, out):
                 if n != base and after.get(n) != c:
                     out.violation("existing backup changed while overwriting a %d-byte name" % ln, rep)
             shutil.rmtree(d, ignore_errors=True)
+    # ---- HISTORIES over names at the limit (251..255 bytes; two names sharing their first 251 bytes): after every step, every
+    #      version the destination held before is still there (under some name) or the step was refused and changed nothing
+    for driver in ("parfile", "parblock"):
+        for mode in ("numbered", "auto"):
+            d = os.path.join(d0, "longhist_%s_%s" % (driver, mode))
+            os.makedirs(os.path.join(d, "s"))
+            os.makedirs(os.path.join(d, "t"))
+            names = [b"a" * 251, b"b" * 252, b"c" * 255, b"p" * 251 + b"XY", b"p" * 251 + b"ZW", b"short"]
+            held = set()
+            for step in range(4):
+                for i, nme in enumerate(names):
+                    open(os.path.join(os.fsencode(d), b"s", nme), "wb").write(b"version %d of file %d" % (step, i))
+                before = dir_state(os.path.join(d, "t"))
+                held |= set(before.values())
+                argv = [ctx.bins["xcp"], "-r", "-T", "--driver", driver, "-w", str(rng.choice([1, 2, 4])), "--backup", mode, os.path.join(d, "s"), os.path.join(d, "t")]
+                r = xcp.run_plain(argv, d)
+                after = dir_state(os.path.join(d, "t"))
+                out.case(("long-name-history", driver, mode, step), step > 0)
+                out.count("long_name_history_steps")
+                rep = dict(kind="history over names of 251-255 bytes", step=step, mode=mode, driver=driver, argv=argv, exit=r.exit, stderr=r.stderr[-200:])
+                lost = [c for c in held if c not in after.values()]
+                if lost and mode == "numbered":
+                    out.violation("step %d of a history with --backup numbered over names of 251-255 bytes: %d earlier version(s) are gone (%r ...), exit %d"
+                                  % (step, len(lost), sorted(lost)[0][:40], r.exit), rep)
+                    break
+                if mode == "auto":
+                    # auto backs up only files that already have a numbered backup: nothing the directory held as a BACKUP may vanish
+                    baks = {n: c for n, c in before.items() if b".~" in n}
+                    gone = [n for n, c in baks.items() if c not in after.values()]
+                    if gone:
+                        out.violation("step %d with --backup auto over long names: the content of existing backup %r is gone" % (step, gone[0][:30]), rep)
+                        break
+            shutil.rmtree(d, ignore_errors=True)
 
 
 def run(ctx, out):
@@ -525,7 +558,7 @@ def run(ctx, out):
                 "in ONE run over several sources some of which are named like numbered backups (f.~1~ copied in, then f overwritten); (c'') histories "
                 "whose destination entry is a LINK to a file elsewhere with backups beside the link; histories "
                 "whose destination is a program BEING EXECUTED (cannot be opened for writing), with and without -f/--force; "
-                "(d) SIGKILL before/after every mutating call of one overwrite. non-trivial = candidate is a real backup or "
+                "histories of four copies over names of 251-255 bytes (two sharing their first 251 bytes); (d) SIGKILL before/after every mutating call of one overwrite. non-trivial = candidate is a real backup or "
                 "shares the first byte / directory holds a backup / step overwrites an existing file; distinct by input")
     run_pairs(ctx, out)
     run_scans(ctx, out)
